@@ -194,6 +194,10 @@ func (check) Run(seed int64, tier string, idx int, verbose bool) harness.Result 
 	runWorld(res, rand.New(rand.NewSource(harness.Mix(seed, "C02", idx))), tier, idx, verbose)
 	// second workload: expressions copied into several trees (forest.go)
 	runForest(res, rand.New(rand.NewSource(harness.Mix(seed, "C02-forest", idx))), tier, idx, verbose)
+	// third workload: expansion results are data (data.go)
+	runData(res, rand.New(rand.NewSource(harness.Mix(seed, "C02-data", idx))), idx, verbose)
+	// fourth workload: non-objects on the path of a name in an earlier layer (pathblock.go)
+	runPathBlock(res, rand.New(rand.NewSource(harness.Mix(seed, "C02-lookup", idx))), idx, verbose)
 	return res.Done()
 }
 
